@@ -821,6 +821,10 @@ static size_t derSIDDec2(u32 val, const char* oid)
 	while (t > 0);
 	// сравнение
 	ASSERT(strIsValid(oid));
+	// строка короче записи val?
+	for (pos = 0; pos < count; ++pos)
+		if (oid[pos] == '\0')
+			return SIZE_MAX;
 	pos = count - 1;
 	if (oid[pos] != '0' + (char)((t = val) % 10))
 		return SIZE_MAX;
